@@ -68,16 +68,47 @@ def run(rep, tier):
     rep.ob(rb, "sqrti", ok, "sqrti is `(arg1 as f64).sqrt() as u64`", expected="u64->f64, sqrt, f64->u64", found=ok)
     # strcmp: null pointer -> all ones
     outs = ev.run_fn("helpers::strcmp", list(a)) or []
-    nullc = T.lor(T.cmp("eq", 64, a[0], T.K(64, 0)), T.cmp("eq", 64, a[1], T.K(64, 0)))
-    hit = [(v, s) for v, s in outs if any(c == nullc for c in s.conds)]
-    rep.ob(rb, "strcmp-null", len(hit) == 1 and hit[0][0] == T.K(64, (1 << 64) - 1) and not hit[0][1].effects,
+    # every combination of (a1 null?, a2 null?): a null pointer on either side gives all-ones before memory is touched,
+    # two non-null pointers reach the scan - however the test is split into guards
+    Z = T.K(64, 0)
+
+    def null_truth(c, env):
+        """truth of a condition that only speaks about the two pointers being null, under env = (a1 null, a2 null);
+        None for any other condition"""
+        if not isinstance(c, tuple) or not c:
+            return None
+        if c[0] == "cmp" and c[1] in ("eq", "ne") and Z in (c[3], c[4]):
+            x = c[4] if c[3] == Z else c[3]
+            if x in (a[0], a[1]):
+                v = env[0] if x == a[0] else env[1]
+                return v if c[1] == "eq" else (not v)
+            return None
+        if c[0] in ("lor", "land"):
+            l, r = null_truth(c[1], env), null_truth(c[2], env)
+            if l is None or r is None:
+                return None
+            return (l or r) if c[0] == "lor" else (l and r)
+        if c[0] == "not":
+            x = null_truth(c[1], env)
+            return None if x is None else (not x)
+        return None
+
+    def covers(st, env):
+        return all(null_truth(c, env) is not False for c in st.conds)
+    ALL1 = T.K(64, (1 << 64) - 1)
+    envs = [(p_, q_) for p_ in (False, True) for q_ in (False, True)]
+    nullp = [(v, s) for v, s in outs if s.feasible and not covers(s, (False, False))]
+    live = [(v, st) for v, st in outs if st.feasible and covers(st, (False, False))]
+    null_ok = bool(nullp) and all(v == ALL1 and not s.effects for v, s in nullp) \
+        and all(any(covers(s, e) for _v, s in nullp) for e in envs if e != (False, False)) \
+        and not any(covers(st, e) for _v, st in live for e in envs if e != (False, False))
+    rep.ob(rb, "strcmp-null", null_ok,
            "strcmp returns all-ones when either pointer is null, before touching memory",
-           expected="path cond `a1 == 0 || a2 == 0` -> 0xffff_ffff_ffff_ffff, no effects", found=[(_sh(v), [_sh(c) for c in s.conds][:2]) for v, s in hit][:2])
+           expected="a1 == 0 or a2 == 0 -> 0xffff_ffff_ffff_ffff, no effects; the scan only with both non-null", found=[(_sh(v), [_sh(c) for c in s.conds][:2]) for v, s in nullp][:3])
     # strcmp: result after the scan, and the scan itself
-    live = [(v, st) for v, st in outs if not any(c == nullc for c in st.conds)]
     forms = set()
     for v, st in live:
-        cs = [c for c in st.conds if c != T.lnot(nullc) and not (isinstance(c, tuple) and c[0] == "land")]
+        cs = [c for c in st.conds if null_truth(c, (False, False)) is None and not (isinstance(c, tuple) and c[0] == "land")]
         if len(cs) == 1 and cs[0][0] == "cmp" and isinstance(v, tuple) and v[0] == "zext" and v[2][0] == "op" and v[2][1] == "sub":
             hi, lo = v[2][3], v[2][4]
             c = cs[0]
